@@ -10,7 +10,7 @@ CORPUS="${CORPUS:-selftest/refactors}"; LIST="$@"; [ -z "$LIST" ] && LIST=$(cd $
 one() {
   r=$1
   W=$(mktemp -d /tmp/refrun.XXXXXX)
-  git -C /repo archive HEAD | tar -x -C $W
+  if [ -n "$GTREE_SRC" ]; then cp -a $GTREE_SRC/. $W/; else git -C /repo archive HEAD | tar -x -C $W; fi
   if ! (cd $W && patch -p1 -s < /verif/$CORPUS/$r/patch.diff); then echo "$r: PATCH FAILED"; rm -rf $W; return; fi
   hits=""
   for p in $PROPS; do
